@@ -62,12 +62,14 @@ Definition ptry {A} (m : pm A) (catch_all : bool) (pats : list xpat) (h : exn ->
            | other => other
            end.
 
-(* try: <assignments>  except ...: h   then k on the assigned values *)
-Definition ptry_k {A} (m : pm pv) (catch_all : bool) (pats : list xpat) (h : exn -> pm A) (k : pv -> pm A)
+(* try: body  except ...: handler   - body and handler both yield a tagged outcome ([VInt 2; value] = return,
+   [VInt 1; state] = fell through) which the continuation k dispatches on *)
+Definition ptry_k {A} (m : pm pv) (catch_all : bool) (pats : list xpat) (h : exn -> pm pv) (k : pv -> pm A)
   : pm A :=
   fun w => match m w with
            | (XOk v, w') => k v w'
-           | (XRaise e, w') => if catch_all || existsb (xpat_matches e) pats then h e w' else (XRaise e, w')
+           | (XRaise e, w') => if catch_all || existsb (xpat_matches e) pats then mbind (h e) k w'
+                               else (XRaise e, w')
            | (XStuck, w') => (XStuck, w')
            end.
 
